@@ -26,7 +26,12 @@ import (
 
 var c10Rows = []string{
 	`{k:1,v:1}`, `{k:1.,v:2}`, `{k:1(uint8),v:3}`, `{k:"1",v:4}`, `{k:null(int64),v:5}`, `{v:6}`, `{k:2,v:null(int64)}`, `{k:1,v:7}`,
+	// rows 8..11: values of other types under one key, and two more keys (used by the
+	// mixed-type sequences only)
+	`{k:1,v:"foo"}`, `{k:1,v:1.5}`, `{k:3,v:8}`, `{k:4,v:9}`,
 }
+
+const c10BaseRows = 8
 
 var c10Keys = []struct{ name, by, keyExpr string }{
 	{"k", "by k", "{k:k}"},
@@ -106,11 +111,27 @@ func TestC10(t *testing.T) {
 		if len(prefix) == maxLen {
 			return
 		}
-		for a := range c10Rows {
+		for a := range c10Rows[:c10BaseRows] {
 			rec(append(prefix, a))
 		}
 	}
 	rec(nil)
+	// mixed-type sequences: the aggregated field holds values of three types under one key,
+	// with enough other keys to make a small key table spill after a multi-type partial exists
+	nBase := len(seqs)
+	var recm func(prefix []int)
+	recm = func(prefix []int) {
+		if len(prefix) >= 3 {
+			seqs = append(seqs, append([]int(nil), prefix...))
+		}
+		if len(prefix) == 5 {
+			return
+		}
+		for _, a := range []int{0, 8, 9, 10, 11} {
+			recm(append(prefix, a))
+		}
+	}
+	recm(nil)
 	zctx := zed.NewContext()
 	rowVals := make([]zed.Value, len(c10Rows))
 	for i, s := range c10Rows {
@@ -124,10 +145,7 @@ func TestC10(t *testing.T) {
 	saved := groupby.DefaultLimit
 	defer func() { groupby.DefaultLimit = saved }()
 	var gbCases int64
-	limits := []int{saved, 1}
-	if rep.Thorough() {
-		limits = []int{saved, 2, 1}
-	}
+	limits := []int{saved, 2, 1}
 	for _, limit := range limits {
 		groupby.DefaultLimit = limit
 		lname := map[int]string{saved: "default", 2: "2", 1: "1"}[limit]
@@ -139,6 +157,13 @@ func TestC10(t *testing.T) {
 					seq := seqs[si]
 					if limit != saved && len(seq) < 2 {
 						return
+					}
+					mixed := si >= nBase
+					if mixed && !(key.name == "k" && (strings.HasPrefix(aggs, "union(") || strings.HasPrefix(aggs, "collect(") || aggs == "count()")) {
+						return
+					}
+					if !mixed && limit == 2 && !rep.Thorough() {
+						return // quick: the key-table limit 2 is used for the mixed-type sequences only
 					}
 					for _, decl := range []string{"unsorted", "asc", "desc"} {
 						if decl != "unsorted" && (key.name != "k" || limit == 2) {
@@ -228,7 +253,7 @@ func TestC10(t *testing.T) {
 	joinCases := c10Joins(t, ctx, run, report)
 	run.Set("join_cases", joinCases)
 	run.Set("exhaustive", true)
-	run.Set("rule", fmt.Sprintf("group-by: every input sequence up to length %d over an 8-row alphabet (numerically equal keys of types int64/float64/uint8/string, null key, missing key, null value) x 3 key specs (plain, two keys one computed, computed typeof) x 10 aggregate sets (count,sum,min,max,avg,collect,union,dcount,and,or,where-clauses,fuse) x groupby.DefaultLimit in {default,2,1} x {unsorted, declared asc, declared desc with the input really sorted}; oracle: rows == union over distinct (type,value) key tuples of the same query run on that key's rows alone. join: kinds {inner,left,right,anti} x every pair of left/right row sequences up to length 2 (3) over 5-row alphabets with 0/1/2 matches per key and null keys, both input orders, unsorted and declared sorted; oracle: nested loop with key equality compare()==0", maxLen))
+	run.Set("rule", fmt.Sprintf("group-by: every input sequence up to length %d over an 8-row alphabet (numerically equal keys of types int64/float64/uint8/string, null key, missing key, null value; plus, for union/collect/count by k, every sequence of length 3..5 over rows whose aggregated field has three types under one key and two further keys, with key-table limits default, 2 and 1) x 3 key specs (plain, two keys one computed, computed typeof) x 10 aggregate sets (count,sum,min,max,avg,collect,union,dcount,and,or,where-clauses,fuse) x groupby.DefaultLimit in {default,2,1} x {unsorted, declared asc, declared desc with the input really sorted}; oracle: rows == union over distinct (type,value) key tuples of the same query run on that key's rows alone. join: kinds {inner,left,right,anti} x every pair of left/right row sequences up to length 2 (3) over 5-row alphabets with 0/1/2 matches per key and null keys, both input orders, unsorted and declared sorted; oracle: nested loop with key equality compare()==0", maxLen))
 	run.Assume("partials-out/partials-in decomposition is exercised through parallel lake queries in C08, not here")
 	run.Assume("rows with a missing join key are outside the claim (operator documentation and implementation disagree)")
 }
